@@ -162,6 +162,29 @@ Fixpoint visit (fuel : nat) (sort : bool) (pth : path) (listing : list fsn) : li
                            end) listing
   end.
 
+(* The same on a case-folding path flavour (PureWindowsPath: _str_normcase = str(self).lower()):
+   the Path objects of `dirs` compare by their LOWER-CASED components, the names of `files`
+   are still compared as they are.  Only ASCII letters are folded here (the harness uses
+   ASCII names for this flavour; str.lower() of other letters needs the Unicode database).
+   This flavour cannot be run through load_tree_from_fs on this platform; its Path order is
+   exercised with PureWindowsPath (case kind CPathSortW).  See C19_windows_flavour_*. *)
+Definition fold_char (c : Z) : Z := if (65 <=? c) && (c <=? 90) then c + 32 else c.
+Definition fold_text (t : text) : text := map fold_char t.
+Definition path_ltb_win (a b : path) : bool := path_ltb (map fold_text a) (map fold_text b).
+
+Fixpoint visit_win (fuel : nat) (pth : path) (listing : list fsn) : list ft :=     (* sort=True *)
+  match fuel with
+  | O => []
+  | S fuel' =>
+      let dirs : list (pathobj * fse) :=
+        flat_map (fun c => match c with Dir n l => [((pth ++ [n], l), entry_dir n)] | _ => [] end) listing in
+      let files : list fse :=
+        flat_map (fun c => match c with File n s m => [entry_file n s m] | _ => [] end) listing in
+      map (fun o => FN o []) (sort_by e_name files) ++
+      map (fun co => FN (snd co) (visit_win fuel' (fst (fst co)) (snd (fst co))))
+          (sort_g (fun a b => path_ltb_win (fst (fst a)) (fst (fst b))) dirs)
+  end.
+
 Fixpoint fdepth (x : fsn) : nat :=
   match x with
   | Dir _ l => S (fold_right (fun c a => Nat.max (fdepth c) a) 0%nat l)
